@@ -210,6 +210,10 @@ type valRun struct {
 
 // run interprets helper fn with a symbolic subject. stop, when set, abandons paths of no interest.
 func (d *valDom) run(fn *ssa.Function, visits int, stop func(st *State, subject avSym) bool) (*valRun, string) {
+	return d.runWith(fn, visits, stop, nil)
+}
+
+func (d *valDom) runWith(fn *ssa.Function, visits int, stop func(st *State, subject avSym) bool, setup func(e *Engine)) (*valRun, string) {
 	var subjIdx = -1
 	for i, prm := range fn.Params {
 		if isAnyType(prm.Type()) && !isNodeType(prm.Type()) {
@@ -223,6 +227,9 @@ func (d *valDom) run(fn *ssa.Function, visits int, stop func(st *State, subject 
 	e := newEngine(d.p, d)
 	e.MaxVisits = visits
 	e.SymSlices = true
+	if setup != nil {
+		setup(e)
+	}
 	st := e.WithInit(d.ed.pkg, newState())
 	vr := &valRun{e: e, errIdx: -1}
 	vr.subject = avSym{id: e.fresh(), tag: "subject"}
